@@ -125,7 +125,16 @@ func VerifC14Errors() {
 	e := NewEngine()
 	var arg any
 	src := "{% include name %}"
-	switch nd.Choice(7) {
+	loop := false
+	switch nd.Choice(9) {
+	case 7: // break or continue inside the included file is an error there: it has no loop of its own
+		arg = "brk.html"
+		nd.SetFile(filepath.Join(root, "brk.html"), "B{% break %}X", 0)
+		loop = nd.Bool()
+	case 8:
+		arg = "cnt.html"
+		nd.SetFile(filepath.Join(root, "cnt.html"), "C{% if true %}{% continue %}{% endif %}X", 0)
+		loop = nd.Bool()
 	case 0:
 		arg = nd.Int()
 	case 1:
@@ -142,6 +151,9 @@ func VerifC14Errors() {
 	case 6: // runtime error inside the included file
 		arg = "bad2.html"
 		nd.SetFile(filepath.Join(root, "bad2.html"), "{{ 1 | divided_by: 0 }}", 0)
+	}
+	if loop {
+		src = "{% for i in (1..3) %}[{{ i }}{% include name %}]{% endfor %}|"
 	}
 	tpl, perr := e.ParseTemplateLocation([]byte(src), incPath, 1)
 	nd.Assert(perr == nil, "includer-parses")
